@@ -28,6 +28,16 @@ static void my_action(int who, int kind, m_mod_t *m, const m_queue_t *q) {
     static _Bool acted;
     if (who == 1 && kind == VF_CB_START && !acted) { acted = 1; int r = m_ctx_set_tick(5000000); VF_CHECK(r == 0, "tick configured from a start callback"); }
 #endif
+#if SCEN == 4
+    /* the first subscriber served by the loop-stop flush deregisters ANOTHER module (X): the flush must still reach
+     * the remaining subscribers in this loop run */
+    static _Bool acted;
+    if ((who == 0 || who == 2) && kind == VF_CB_EVT && !acted) {
+        _Bool stopped = 0;
+        m_itr_foreach(q, { m_evt_t *e = m_itr_get(m_itr); if (e->type == M_SRC_TYPE_PS && e->ps_evt->topic && !strcmp(e->ps_evt->topic, M_PS_CTX_STOPPED)) stopped = 1; });
+        if (stopped) { acted = 1; int r = m_mod_deregister(&vf_mods[1]); VF_CHECK(r == 0, "deregistration of another module from the flush"); }
+    }
+#endif
 #if SCEN == 0
     static _Bool acted;      /* the deregistration stops the module again: its stop callback re-enters */
     if (who == 1 && kind == VF_CB_STOP && !acted) { acted = 1; int r = m_mod_deregister(&vf_mods[1]); VF_CHECK(r == 0, "self-deregistration inside the stop callback"); }
@@ -52,6 +62,30 @@ int vf_main(void) {
 #if SCEN == 3
     r = m_mod_ps_subscribe(S, M_PS_CTX_TICK, 0, NULL); VF_CHECK(r == 0, "S subscribes to the tick");
 #endif
+#if SCEN == 4
+    {
+        m_mod_t *T = vf_mod(2, 0, NULL);
+        r = m_mod_start(T); VF_CHECK(r == 0, "start T");
+        r = m_mod_start(X); VF_CHECK(r == 0, "start X");
+        r = m_mod_ps_unsubscribe(S, M_PS_MOD_STOPPED); r = m_mod_ps_unsubscribe(S, M_PS_MOD_STARTED);
+        r = m_mod_ps_subscribe(S, M_PS_CTX_STOPPED, 0, NULL); VF_CHECK(r == 0, "S subscribes to CTX_STOPPED");
+        r = m_mod_ps_subscribe(T, M_PS_CTX_STOPPED, 0, NULL); VF_CHECK(r == 0, "T subscribes to CTX_STOPPED");
+        r = m_ctx_dispatch(); VF_CHECK(r == 0, "loop starts");
+        for (int d = 0; d < 3; d++) r = m_ctx_dispatch();
+        r = m_ctx_quit(7); VF_CHECK(r == 0, "quit");
+        r = m_ctx_dispatch(); VF_CHECK(r == 7, "loop stops");
+        int ns = 0, nt = 0;
+        for (int k = 0; k < VF_LOGN; k++) {
+            if (k < vf_nlog[0] && vf_log[0][k].topic && strcmp(vf_log[0][k].topic, M_PS_CTX_STOPPED) == 0) ns++;
+            if (k < vf_nlog[2] && vf_log[2][k].topic && strcmp(vf_log[2][k].topic, M_PS_CTX_STOPPED) == 0) nt++;
+        }
+        VF_CHECK(m_mod_is(keep, M_MOD_ZOMBIE), "X was deregistered by the first subscriber served");
+        VF_CHECK(ns == 1 && nt == 1, "every subscriber gets CTX_STOPPED once, by the end of this loop run");
+        m_mem_unref(keep);
+        VF_WITNESS("end");
+        return 0;
+    }
+#else
     r = m_ctx_dispatch(); VF_CHECK(r == 0, "loop starts");
 #if SCEN == 2
     VF_CHECK(m_mod_is(X, M_MOD_PAUSED) && vf_nstart[1] == 1, "X was started by the evaluation pass and paused itself");
@@ -85,4 +119,5 @@ int vf_main(void) {
     m_mem_unref(keep);
     VF_WITNESS("end");
     return 0;
+#endif
 }
